@@ -7,6 +7,7 @@ import shutil
 
 import extract_conv
 import extract_semtok
+import extract_vfs
 import weave
 from common import VERIF, REPO, scratch, Undecided
 from rustcut import AnchorLost
@@ -35,6 +36,17 @@ UNITS = {
              'old': '    ensure!(start <= end, "Invalid range: {range:?} ends before it starts");\n', 'new': ''},
         ],
     },
+}
+UNITS['vfs'] = {
+    'extract': extract_vfs, 'spec': 'contracts/vfs.spec', 'prelude': 'contracts/vfs_prelude.rs',
+    # the precondition of the edit's contract must be satisfiable together with an accepted ranged change
+    'reach': ('proof fn reach_probe(v: Vfs, file: FileId, d: TextRange, ins: &str)\n    requires v.files@.dom().contains(file.0 as int), v.files@[file.0 as int].0.len() <= u32::MAX, d.wf(),\n        d.end <= v.files@[file.0 as int].0.len(), v.files@[file.0 as int].0.is_char_boundary(d.start as usize), v.files@[file.0 as int].0.is_char_boundary(d.end as usize),\n{ assert(false); }\n'),
+    'canaries': [
+        {'name': 'verus: the splice does not delete', 'file': 'crates/glas/src/vfs.rs',
+         'old': "                buf += &text[usize::from(del_range.end())..];", 'new': "                buf += &text[usize::from(del_range.start())..];"},
+        {'name': 'verus: a range ending past the text is not rejected', 'file': 'crates/glas/src/vfs.rs',
+         'old': '                    del_range.end() <= TextSize::of(text),', 'new': '                    del_range.start() <= TextSize::of(text),'},
+    ],
 }
 COPY_DIRS = ('crates/glas/src', 'crates/ide/src/ide')
 
